@@ -142,7 +142,29 @@ def roundtrip_validation(ck):
                              dict(clause='not_injective', how='ser', what='precedence_order', orders=[name, name], order_a=order, order_b=order))
 
 
+def object_roundtrip_validation(ck):
+    """differential: objects built in memory (not parsed) -> emit -> parse must give the identical object; texts with
+    upper case, padding, quotes and non-ASCII, numbers at the type limits (covers normalisation on the parse side only,
+    which the serialisation kernel cannot see)"""
+    d = native.driver()
+    texts = ['main', ' Feature/X ', 'DEADBEEFCAFE', ' ABCdef', 'a"b\\c', 'é\u212a', '', '0007']
+    for i, t in enumerate(texts):
+        vars_ = dict(major=i, minor=0, patch=2**64 - 1, epoch=None if i % 2 else 0, post=i % 3 or None, dev=None, distance=i, dirty=bool(i % 2),
+                     bumped_branch=native.cps(t), bumped_commit_hash=native.cps(texts[(i + 2) % len(texts)]), last_branch=native.cps(texts[(i + 3) % len(texts)]),
+                     last_commit_hash=native.cps(texts[(i + 1) % len(texts)]), bumped_timestamp=i * 1000, last_timestamp=None, last_tag_version=native.cps(texts[(i + 4) % len(texts)]),
+                     pre_release=None if i % 3 == 0 else dict(label=('alpha', 'beta', 'rc')[i % 3], number=None if i % 2 else i))
+        r = d.call(op='zerv_roundtrip', vars=vars_)
+        ck.validated += 1
+        if 'panic' in r or not r.get('ok') or r['object'] != r['object2'] or r['emitted'] != r['emitted2']:
+            ck.confirmed('roundtrip:object', 'an in-memory Zerv object does not survive emit -> parse: %s' % (r.get('err') or r.get('panic') or 'objects differ: %s ... vs %s' % (r['object'][-420:-250], r['object2'][-420:-250])),
+                         dict(clause='roundtrip_object', how='ser', what='object', vars=vars_))
+
+
 def confirm(v):
+    if v.get('clause') == 'roundtrip_object':
+        r = native.driver().call(op='zerv_roundtrip', vars=v['vars'])
+        bad = 'panic' in r or not r.get('ok') or r['object'] != r['object2']
+        return bad, 'in-memory object emit -> parse: %s' % ('differs' if bad else 'identical')
     if v.get('clause') in ('not_injective', 'duplicate_key') or v.get('what') == 'serialize':
         return confirm_ser(v)
     how = v['how'] if v['how'] != 'zerv_new' else 'new'
@@ -181,6 +203,7 @@ def main():
         v.setdefault('how', 'ser')
     cands += scands
     roundtrip_validation(ck)
+    object_roundtrip_validation(ck)
     seen = set()
     for v in cands:
         key = json.dumps(v, sort_keys=True, default=str)
